@@ -922,11 +922,9 @@ class GeneratorEntry(ParEntry):
 
     def term_real(self, c, out):
         x, p = self._table(c)
-        fn = "v_gen_fast"
+        fn = "v_gen_u %s" % ("(536870912 # 1)%Q" if c.get("form") == "f4" else "(1 # 1)%Q")
         if c["mode"] == "cum":
             fn = "v_gen_cum"
-        elif c.get("form") == "f4":
-            fn = "v_gen_opt (536870912 # 1)%Q true"
         if out[0] == "ok":
             return "%s %s %s %s (Ok %s)" % (fn, cqlist(p), cqlist(x), cqlist(out[1]["us"]), cqlist(out[1]["vals"]))
         return "%s %s %s %s (Err %s)" % (fn, cqlist(p), cqlist(x), cqlist(c["us"] or [0.5]), out[1])
